@@ -62,9 +62,14 @@ def _unquote_impl(string, only_printable=False, unsafe=None):
                 append(item[2:])
             dangling = False
         else:
-            append(b"%")
+            # A stray "%" is itself unsafe when "%" is: it is written "%25"
+            if unsafe is not None and b"%" in unsafe:
+                append(b"%25")
+            else:
+                append(b"%")
+                dangling = len(item) < 2 and item in HEX_BYTES
+
             append(item)
-            dangling = len(item) < 2 and item in HEX_BYTES
 
     return res
 
